@@ -41,6 +41,25 @@ theorem scalar_assign_spec (m : Matrix α) (s : σ) (op : α → σ → α) :
     ∀ k : Nat, (m.scalarAssign s op).data[k]? = (m.data[k]?).map (fun x => op x s) := by
   refine ⟨rfl, rfl, by simp [Matrix.scalarAssign], fun k => by simp [Matrix.scalarAssign]⟩
 
+/-- the same, by logical position and independent of the storage order: the element at `(r, c)`
+of the result is `op (element at (r, c)) scalar`, the result has the operand's shape, and it is
+coherent when the operand is. -/
+theorem scalar_at (m : Matrix α) (s : σ) (op : α → σ → γ) (r c : Nat) :
+    let out : Matrix γ := ⟨m.order, m.shape, m.data.map (fun x => op x s)⟩
+    out.at? r c = (m.at? r c).map (fun x => op x s) ∧ out.nrows = m.nrows ∧ out.ncols = m.ncols ∧
+      (m.Coh → out.Coh) := by
+  refine ⟨?_, rfl, rfl, fun h => ⟨by simpa using h.size_eq⟩⟩
+  simp only [Matrix.at?, Matrix.nrows, Matrix.ncols, Matrix.idx]
+  by_cases hb : r < m.shape.nrows m.order ∧ c < m.shape.ncols m.order <;> simp [hb]
+
+/-- `scalar_operation_assign` by logical position -/
+theorem scalar_assign_at (m : Matrix α) (s : σ) (op : α → σ → α) (r c : Nat) :
+    (m.scalarAssign s op).at? r c = (m.at? r c).map (fun x => op x s) ∧
+      (m.scalarAssign s op).nrows = m.nrows ∧ (m.scalarAssign s op).ncols = m.ncols ∧
+      (m.Coh → (m.scalarAssign s op).Coh) := by
+  have h := scalar_at m s op r c
+  simpa [Matrix.scalarAssign] using h
+
 /-- what the property demands of one macro arm -/
 def formOk (f : Gen.ScalarForm) : Bool :=
   -- operand order: matrix on the left ⇒ element op scalar; matrix on the right ⇒ scalar op element
